@@ -725,7 +725,7 @@ impl<NumericTypes: EvalexprNumericTypes> Node<NumericTypes> {
 
                     // Root nodes have at most one child
                     // TODO I am not sure if this is the correct error
-                    if node.operator() == &Operator::RootNode && !node.children().is_empty() {
+                    if node.operator() == &Operator::RootNode {
                         return Err(EvalexprError::MissingOperatorOutsideOfBrace);
                     }
                     // Do not insert root nodes into root nodes.
